@@ -288,6 +288,7 @@ structure TPath where
   rej  : Bool       -- rejected flag (Adj-RIB-In)
   addr : Nat := 0   -- class of the source's address string (route-server view filter)
   stale : Bool := false -- `originInfo.stale` (Adj-RIB-In, graceful restart)
+  attr : Nat := 0   -- an attribute the decision process ignores (a community): `Path.Equal` sees it, `Compare` does not
 deriving DecidableEq, Repr
 
 structure TDest where
@@ -349,7 +350,7 @@ def locCalc (d : TDest) : TOp → TDest
     -- implicitWithdraw: first match, the new path inherits its local id
     let (rest, lid) :=
       match d.paths.findIdx? (fun x => x.sameKey p.src p.rid) with
-      | none => (d.paths, 0)
+      | none => (d.paths, p.lid) -- `newPath.localID` is left as it is (non-zero when the object was in the table before)
       | some i => (d.paths.eraseIdx i, ((d.paths[i]?).map (·.lid)).getD 0)
     let l := insertByRank rest { p with lid := lid }
     let a := allocIds l d.ids
@@ -405,8 +406,11 @@ def multiBest : List TPath → List TPath
 /-- `n.EqualBySourceAndPathID(o)` -/
 def TPath.keyEq (a b : TPath) : Bool := a.src == b.src && a.rid == b.rid
 
-/-- `n.Equal(o)` for two paths of one source: same attributes (here: same LOCAL_PREF) -/
-def TPath.attrEq (a b : TPath) : Bool := a.cost == b.cost
+/-- the attributes of a path as `Path.Equal` sees them in the harness: LOCAL_PREF and the community -/
+def TPath.val (x : TPath) : Nat × Nat := (x.cost, x.attr)
+
+/-- `n.Equal(o)` for two paths of one source: same attributes -/
+def TPath.attrEq (a b : TPath) : Bool := a.val == b.val
 
 /-- the `update` list of `GetMultiBestPathDiff`: a new member is announced unless the FIRST old
     member with its (source, path-id) has the same attributes -/
@@ -431,17 +435,34 @@ def mpDiff (oldList newList : List TPath) : List TPath × List TPath :=
   (mpUpdate (multiBest oldList) (multiBest newList), mpWithdraw (multiBest oldList) (multiBest newList))
 
 /-- a consumer of the multipath stream (FIB, watcher): (source, path-id) → attributes, for one prefix -/
-abbrev MpConsumer := Nat × Nat → Option Nat
+abbrev MpConsumer := Nat × Nat → Option (Nat × Nat)
 
 /-- applying one notification: the withdrawals remove their key, the updates set theirs -/
 def mpApply (c : MpConsumer) (d : List TPath × List TPath) : MpConsumer :=
   fun k => match d.1.find? (fun n => (n.src, n.rid) == k) with
-    | some n => some n.cost
+    | some n => some n.val
     | none => if d.2.any (fun o => (o.src, o.rid) == k) then none else c k
 
 /-- what a consumer should hold for a multipath set -/
 def mpView (m : List TPath) : MpConsumer :=
-  fun k => (m.find? (fun n => (n.src, n.rid) == k)).map (·.cost)
+  fun k => (m.find? (fun n => (n.src, n.rid) == k)).map (·.val)
+
+/-! ### the multipath report of `Update.GetChanges` (third result: the watcher's MultiPathList) -/
+
+/-- what `Path.Equal` compares: source and attributes — NOT the path id -/
+def TPath.sig (x : TPath) : Nat × Nat × Nat := (x.src, x.cost, x.attr)
+
+/-- the local helper `diff` of `GetChanges`: lengths differ, or some position holds a path that is
+    not `Equal` to the one that was there -/
+def mpChanged : List TPath → List TPath → Bool
+  | [], [] => false
+  | a :: r, b :: r' => a.sig != b.sig || mpChanged r r'
+  | _, _ => true
+
+/-- the third result of `GetChanges`: the new multipath set when it differs from the old one
+    (`none` = nil = "unchanged") -/
+def multiReport (oldList newList : List TPath) : Option (List TPath) :=
+  if mpChanged (multiBest oldList) (multiBest newList) then some (multiBest newList) else none
 
 /-! ### partial operations of a multi-family Adj-RIB-In (each works on ONE table of the AdjRib) -/
 
